@@ -331,6 +331,12 @@ fn check_storage_version(manifest: &mut Manifest) -> Result<()> {
     Ok(())
 }
 
+/// Verification hook: run the private [`check_storage_version`] on a manifest.
+#[cfg(lancedb_lance_verif)]
+pub fn verif_check_storage_version(manifest: &mut Manifest) -> Result<()> {
+    check_storage_version(manifest)
+}
+
 /// Fix schema in case of duplicate field ids.
 ///
 /// See test dataset v0.10.5/corrupt_schema
